@@ -10,7 +10,7 @@ from ..pathq import fq
 from ..report import Ctx
 from ..symeval import BV, Obj, Opaque, SymEval, Tok
 from ..tables import compare_table
-from .common import enclosing_map, wcparse_init_paths
+from .common import cached, enclosing_map, wcparse_init_paths
 
 WP = '_wcparse'
 
@@ -158,11 +158,8 @@ def rule_dedupe_predicate(ctx: Ctx, rule: str) -> None:
     ctx.ob(rule, 'glob:Glob._parse_patterns/auto-nounique', ok5, repo.loc('glob', auto[0] if auto else pp.node), want,
            norm_src(auto[0].test) if auto else 'none',
            witness="glob(['a', '[a]']) must return `a` once: the shortcut may only apply to a single inclusion pattern")
-    writers = set()
-    for fi in repo.cls('glob', 'Glob').methods.values():
-        for s in walk_no_nested(fi.node):
-            if isinstance(s, (ast.Assign, ast.AnnAssign)) and norm_src(s.targets[0] if isinstance(s, ast.Assign) else s.target) == 'self.nounique':
-                writers.add(fi.name)
+    from .common import pinned_writers
+    writers = pinned_writers(repo, 'glob', 'Glob', 'nounique')
     ctx.ob(rule, 'glob:Glob/nounique-writers', writers == {'__init__', '_parse_patterns'}, repo.loc('glob', pp.node), "{'__init__', '_parse_patterns'}", str(sorted(writers)))
 
 
@@ -334,8 +331,8 @@ def rule_abs_pattern_def(ctx: Ctx, rule: str) -> None:
     oku = bool(defs) and all(q.cfg.dominates(dn, q.node_of(u)) for u in users)
     ctx.ob(rule, 'glob:Glob.glob/is_abs_pattern-before-use', oku, repo.loc('glob', g.node), 'definition dominates every walker call of the iteration',
            f'{len(users)} uses', witness='an absolute pattern following a relative one in a list must switch the mode')
-    writers = {fi.name for fi in repo.cls('glob', 'Glob').methods.values() for s in walk_no_nested(fi.node)
-               if isinstance(s, ast.Assign) and norm_src(s.targets[0]) == 'self.is_abs_pattern'}
+    from .common import pinned_writers
+    writers = pinned_writers(repo, 'glob', 'Glob', 'is_abs_pattern')
     ctx.ob(rule, 'glob:Glob/is_abs_pattern-writers', writers == {'glob'}, repo.loc('glob', g.node), "{'glob'}", str(sorted(writers)))
 
 
@@ -933,24 +930,98 @@ def rule_globstar_handover(ctx: Ctx, rule: str) -> None:
         ctx.ob(rule, f'glob:Glob._glob/{key}', not bad[key], site, texts[key], f'{len(paths)} rows agree' if not bad[key] else sorted(set(bad[key]))[0][:220], witness=wit.get(key, ''))
 
 
+def glob_dir_table(repo):
+    """Decision table of Glob._glob_dir for one directory entry e = (name, is_dir, hidden, is_link) as yielded by _iter.
+
+    Returns a dict key -> list of disagreeing rows (empty = holds) and the number of rows; values are named by provenance, so the
+    names of the loop variables and of intermediate locals do not matter.
+    """
+    def build():
+        from ..symeval import focus, _tag
+        gd = repo.func('glob', 'Glob._glob_dir')
+        GD = 'glob:Glob._glob_dir'
+        pars = gd.params()[1:] if gd.params() and gd.params()[0] == 'self' else gd.params()
+        if len(pars) != 5:
+            raise AnalysisError(f'Glob._glob_dir takes {len(pars)} parameters (5 expected: curdir, matcher, dir_only, deep, globstar_follow)')
+        canon = ['curdir', 'matcher', 'dir_only', 'deep', 'globstar_follow']
+        ev = SymEval(repo, inline=False)
+        paths = ev.tabulate(gd, {p: Opaque(c) for p, c in zip(pars, canon)}, Obj(('glob', 'Glob'), {}))
+        bad = {k: [] for k in ('iter-call', 'special-yield', 'entry-yield', 'descent', 'recursion-arguments')}
+        E = 'elem(list(glob:Glob._iter(curdir, dir_only, deep)))'
+
+        def K_not(a): return None if a is None else (not a)
+        def K_and(*xs): return False if any(x is False for x in xs) else (None if any(x is None for x in xs) else True)
+        def K_or(*xs): return True if any(x is True for x in xs) else (None if any(x is None for x in xs) else False)
+        n = 0
+        for p in paths:
+            focus(p)
+            d = {k.replace(E, 'e'): v for k, v in p.decisions.items()}
+            its = p.calls_to(lambda s: s == 'glob:Glob._iter')
+            if len(its) != 1 or [_tag(x) for x in its[0][1]] != ['curdir', 'dir_only', 'deep'] or its[0][2]:
+                bad['iter-call'].append(f'{len(its)} call(s) of _iter: ' + '; '.join(str([_tag(x) for x in c[1]]) for c in its))
+                continue
+            if not any(k.startswith('e[') for k in d):
+                continue  # empty listing
+            n += 1
+            ys = [(_tag(y[1]) if not isinstance(y[1], tuple) else tuple(y[1])) for y in p.of('yield')]
+            plain = [y for y in p.of('yield') if isinstance(y[1], tuple) and y[1] and y[1][0] != 'from']
+            rec = p.calls_to(lambda s: s == GD)
+            frm = [y for y in p.of('yield') if isinstance(y[1], tuple) and y[1] and y[1][0] == 'from']
+            row = ', '.join(f'{k}={v}' for k, v in d.items())[:200]
+            special = d.get('e[0] in self.specials')
+            if special is None:
+                bad['special-yield'].append('the entry is not tested against self.specials: ' + row)
+                continue
+            m_some = d.get('matcher is not None')
+            m_true = d.get('matcher', True if m_some else (False if m_some is False else None))
+            if m_some is None and m_true is not None:
+                m_some = True if m_true else None
+            acc = d.get('matcher(e[0])')
+            hidden, is_dir, is_link = d.get('e[2]'), d.get('e[1]'), d.get('e[3]')
+            path_tag = 'os.path.join(curdir, e[0])'
+            got_plain = [tuple(_tag(x).replace(E, 'e') if not isinstance(x, bool) else x for x in y[1]) for y in plain]
+            if special:
+                want = K_and(m_some, acc)
+                exp = [(path_tag, True)] if want else []
+                if want is None or got_plain != exp or rec or frm:
+                    bad['special-yield'].append(f'{row}: yields {got_plain}, {len(rec)} recursive call(s)')
+                continue
+            want = K_or(K_and(K_not(m_some), K_not(hidden)), K_and(m_true, acc))
+            exp = [(path_tag, 'e[1]')] if want else []
+            if want is None or got_plain != exp:
+                bad['entry-yield'].append(f'{row}: yields {got_plain}, expected {exp if want is not None else "a decided verdict"}')
+            follow = K_or(K_not(is_link), d.get('self.follow_links'), d.get('globstar_follow'))
+            desc = K_and(d.get('deep'), K_not(hidden), is_dir, follow)
+            if desc is None or (len(rec) == 1) != bool(desc) or len(rec) > 1 or len(frm) != len(rec):
+                bad['descent'].append(f'{row}: {len(rec)} recursive call(s), expected {desc}')
+            for c in rec:
+                a = [_tag(x).replace(E, 'e') for x in c[1]] + [f'{k}={_tag(v)}' for k, v in c[2].items()]
+                if a != [path_tag, 'matcher', 'dir_only', 'deep', 'globstar_follow']:
+                    bad['recursion-arguments'].append(str(a))
+                if not frm or not _tag(frm[-1][1][1]).startswith(GD + '('):
+                    bad['recursion-arguments'].append('the recursive results are not yielded')
+        if n < 20:
+            raise AnalysisError(f'Glob._glob_dir: only {n} entry rows in the table')
+        return bad, n
+    return cached(repo, '_glob_dir_table', build)
+
+
 # ================================================================================================ C06
 def rule_link_test(ctx: Ctx, rule: str) -> None:
     ctx.text(rule, 'recursive descent is dominated by the link test: `follow` is `not is_link or self.follow_links or '
                    'globstar_follow` (nothing else can make it true) and the recursion forwards deep and globstar_follow unchanged')
     repo = ctx.repo
     gd = repo.func('glob', 'Glob._glob_dir')
-    d = [s for s in walk_no_nested(gd.node) if isinstance(s, ast.Assign) and norm_src(s.targets[0]) == 'follow']
-    ok = len(d) == 1 and equivalent_tests(d[0].value, 'not is_link or self.follow_links or globstar_follow')
-    ctx.ob(rule, 'glob:Glob._glob_dir/follow-definition', ok, repo.loc('glob', d[0] if d else gd.node), 'not is_link or self.follow_links or globstar_follow',
-           norm_src(d[0].value) if d else 'none', witness="`follow = True` makes glob('**', GLOBSTAR) loop forever on a symlink cycle")
-    rec = [c for c in walk_no_nested(gd.node) if isinstance(c, ast.Call) and norm_src(c.func) == 'self._glob_dir']
-    okr = len(rec) == 1 and [norm_src(a) for a in rec[0].args] == ['path', 'matcher', 'dir_only', 'deep', 'globstar_follow']
-    ctx.ob(rule, 'glob:Glob._glob_dir/recursion-arguments', okr, repo.loc('glob', rec[0] if rec else gd.node),
-           'self._glob_dir(path, matcher, dir_only, deep, globstar_follow)', norm_src(rec[0]) if rec else 'none')
-    files = [s for s in walk_no_nested(gd.node) if isinstance(s, ast.For) and isinstance(s.target, ast.Tuple)]
-    okt = bool(files) and [norm_src(e) for e in files[0].target.elts] == ['file', 'is_dir', 'hidden', 'is_link']
-    it = repo.func('glob', 'Glob._iter')
-    ctx.ob(rule, 'glob:Glob._glob_dir/tuple-order', okt, repo.loc('glob', gd.node), '(file, is_dir, hidden, is_link) as yielded by _iter', str(okt),
+    bad, n = glob_dir_table(repo)
+    site = repo.loc('glob', gd.node)
+    ctx.count(f'{rule}:_glob_dir rows', n)
+    ctx.ob(rule, 'glob:Glob._glob_dir/follow-definition', not bad['descent'], site, 'descent iff deep ∧ ¬hidden ∧ is_dir ∧ (¬is_link ∨ self.follow_links ∨ globstar_follow)',
+           f'{n} rows agree' if not bad['descent'] else bad['descent'][0], witness="`follow = True` makes glob('**', GLOBSTAR) loop forever on a symlink cycle")
+    ctx.ob(rule, 'glob:Glob._glob_dir/recursion-arguments', not bad['recursion-arguments'], site,
+           'yield from self._glob_dir(<joined path>, matcher, dir_only, deep, globstar_follow)', 'agree' if not bad['recursion-arguments'] else bad['recursion-arguments'][0])
+    ctx.ob(rule, 'glob:Glob._glob_dir/tuple-order', not bad['iter-call'] and not bad['entry-yield'], site,
+           'entries come from self._iter(curdir, dir_only, deep) and are used as (name, is_dir, hidden, is_link)',
+           'agree' if not (bad['iter-call'] or bad['entry-yield']) else (bad['iter-call'] + bad['entry-yield'])[0],
            witness='swapping hidden and is_link makes hidden directories look like links')
     sp = repo.func('glob', '_GlobSplit.split')
     ins = [c for c in walk_no_nested(sp.node) if isinstance(c, ast.Call) and norm_src(c.func) == 'parts.insert']
@@ -1085,14 +1156,18 @@ def rule_fs_match_links(ctx: Ctx, rule: str) -> None:
     ctx.ob(rule, '_wcmatch:_Match._fs_match/is_link-definitions', not bad_d, repo.loc('_wcmatch', fm.node),
            'verdict = cache[(dir_fd, base)], else os.path.islink(base) (no dir_fd) / S_ISLNK(os.lstat(base, dir_fd=dir_fd)) or False on error, written back to the cache',
            'as expected' if not bad_d else sorted(set(bad_d))[0][:220], witness="globmatch(..., dir_fd=fd) must lstat relative to the descriptor")
-    res = [s for s in walk_no_nested(fm.node) if isinstance(s, ast.Assign) and norm_src(s) == 'matched = not is_link']
-    ctx.ob(rule, '_wcmatch:_Match._fs_match/link-fails-match', len(res) == 1, repo.loc('_wcmatch', fm.node), 'matched = not is_link', str(len(res)))
+    # the verdict variable is the one the function returns; inside the inspection it is set to `not <link verdict>`
+    rets = [r.value.id for r in walk_no_nested(fm.node) if isinstance(r, ast.Return) and isinstance(r.value, ast.Name)]
+    rv = rets[-1] if rets else None
+    res = [s for s in walk_no_nested(fm.node) if isinstance(s, ast.Assign) and len(s.targets) == 1 and isinstance(s.targets[0], ast.Name) and
+           s.targets[0].id == rv and isinstance(s.value, ast.UnaryOp) and isinstance(s.value.op, ast.Not) and isinstance(s.value.operand, ast.Name)]
+    ctx.ob(rule, '_wcmatch:_Match._fs_match/link-fails-match', len(res) == 1, repo.loc('_wcmatch', fm.node), '<result> = not <link verdict>, once, inside the inspection', str(len(res)))
     # once a symlink has been found the verdict is final: every loop around the assignment is left at once
     if res:
         encl = [l for l in walk_no_nested(fm.node) if isinstance(l, ast.For) and any(x is res[0] for x in ast.walk(l))]
         leaves = []
         for l in encl:
-            has = any(isinstance(x, ast.If) and norm_src(x.test) == 'not matched' and any(isinstance(b, ast.Break) for b in x.body) and
+            has = any(isinstance(x, ast.If) and norm_src(x.test) == f'not {rv}' and any(isinstance(b, ast.Break) for b in x.body) and
                       _innermost_loop(l, x) is l for x in ast.walk(l))
             leaves.append(has)
         ctx.ob(rule, '_wcmatch:_Match._fs_match/link-verdict-is-final', len(encl) == 2 and all(leaves), repo.loc('_wcmatch', res[0]),
